@@ -47,6 +47,8 @@ class Harness:
         self.slice = kv.get("_slice")
         self.solver = kv.get("solver", "")
         self.unwindset = kv.get("unwindset", "")
+        # optional=1: an inconclusive result (timeout) is reported in the evidence but does not fail the check
+        self.optional = kv.get("optional", "0") == "1"
 
     @property
     def fq(self):
